@@ -59,6 +59,47 @@ int main_replay(){
   return 0;
 }
 '''
+REPLAY_F4 = r'''
+/* F4 on the real library: classic surplus refinement on ONE selected output of a two-output grid must propose exactly what the same refinement
+ * proposes on a single-output grid that holds only that output (the other output has a very different magnitude). */
+int main_replay(){
+  using namespace TasGrid;
+  int bad = 0;
+  for (int fam = 0; fam < 2; fam++) for (int order = 1; order <= 3; order += 2) for (int sel = 0; sel < 2; sel++) {
+    auto mk = [&](int outs)->TasmanianSparseGrid{ return fam == 0 ? makeLocalPolynomialGrid(2, outs, 3, order == 1 ? 1 : 2, rule_localp) : makeWaveletGrid(2, outs, 2, order); };
+    TasmanianSparseGrid two = mk(2), one = mk(1);
+    auto f0 = [](double a, double b)->double{ return 1000.0 * std::exp(-a * a - b * b); };
+    auto f1 = [](double a, double b)->double{ return 0.001 * std::sin(3.0 * a + b) / (1.5 + b); };
+    std::vector<double> p = two.getNeededPoints(); int n = two.getNumNeeded();
+    std::vector<double> v2(2 * n), v1(n);
+    for (int i = 0; i < n; i++) { v2[2*i] = f0(p[2*i], p[2*i+1]); v2[2*i+1] = f1(p[2*i], p[2*i+1]); v1[i] = sel == 0 ? v2[2*i] : v2[2*i+1]; }
+    two.loadNeededValues(v2); one.loadNeededValues(v1);
+    two.setSurplusRefinement(1.E-2, refine_classic, sel); one.setSurplusRefinement(1.E-2, refine_classic, 0);
+    if (two.getNeededPoints() != one.getNeededPoints()) {
+      std::printf("%s order %d, output %d: %d points proposed, the single-output reference proposes %d\n", fam ? "wavelet" : "local polynomial", order, sel, two.getNumNeeded(), one.getNumNeeded()); bad++; }
+  }
+  __CPROVER_assert(bad == 0, "F4 the selected output is normalized by its own magnitude");
+  return 0;
+}
+'''
+REPLAY_STALE = r'''
+/* On the real library: two surplus refinements in a row without loading; the second one finds no admissible child under its limits and must return with zero needed points. */
+int main_replay(){
+  using namespace TasGrid;
+  int bad = 0;
+  for (int fam = 0; fam < 2; fam++) {
+    TasmanianSparseGrid g = fam == 0 ? makeGlobalGrid(2, 1, 2, type_tensor, rule_leja, std::vector<int>(), 0.0, 0.0, nullptr, std::vector<int>{2, 2}) : makeSequenceGrid(2, 1, 2, type_tensor, rule_leja, std::vector<int>(), std::vector<int>{2, 2});
+    std::vector<double> p = g.getNeededPoints(), v(g.getNumNeeded()); for (int i = 0; i < g.getNumNeeded(); i++) v[i] = std::exp(p[2*i] + 0.7 * p[2*i+1]);
+    g.loadNeededValues(v);
+    g.setSurplusRefinement(1.E-8, 0, std::vector<int>{3, 3});
+    int first = g.getNumNeeded();
+    g.setSurplusRefinement(1.E-8, 0, std::vector<int>{2, 2});
+    if (g.getNumNeeded() != 0) { std::printf("%s: after limits {2,2} (the loaded tensor is full) %d needed points remain (first request proposed %d)\n", fam ? "Sequence" : "Global", g.getNumNeeded(), first); bad++; }
+  }
+  __CPROVER_assert(bad == 0, "C08 no admissible child: zero needed points");
+  return 0;
+}
+'''
 def mk_replay(prop, body):
     def rp(job, ob, vals, wd):
         hdr = "Replay against the real library.\nproperty %s job %s\nobligation %s: %s\nat %s" % (prop, job.name, ob["name"], ob["description"], ob["location"])
@@ -123,10 +164,28 @@ def jobs(tier, seed, prop):
         npnt = 3 if tier == "quick" else 4
         out.append(Job("limits.buildUpdateMap", '#include "tsg_shim.h"\nint tsg_exc;\n#define TSG_NP %d\n' % npnt + enumt + '#line 1 "/verif/contracts/updatemap.c"\n' + cfu.text(("text",)) + ut + cfu.text(("harness",)),
                        "h_buildUpdateMap", unwind=2 * npnt + 3, timeout=300, backends=[[], ["--sat-solver", "cadical"]],
-                       functions=["%s:%d %s" % (f["file"], f["line"], f["name"]) for f in uinfo["functions"]], info=uinfo,
+                       functions=["%s:%d %s" % (f["file"], f["line"], f["name"]) for f in uinfo["functions"]], info=uinfo, replay=mk_replay(prop, "#include <cmath>\n" + REPLAY_F4),
                        bounded="points <= %d, outputs <= 2, dimensions <= 2 (full unwinding with unwinding assertions)" % npnt,
                        assumed=["R13: the criterion c*|s|/norm <= tolerance is an uninterpreted deterministic predicate of its four operands", "getNormalization returns arbitrary values (stub)"],
                        label="buildUpdateMap classic criterion: which correction, coefficient and norm meet (F4)"))
+    if prop == "C07":
+        Rw = X.Rules()
+        wt, winfo = limits.emit_buildUpdateMap_classic_wavelet(Rw)
+        out.append(Job("limits.buildUpdateMap.wavelet", '#include "tsg_shim.h"\nint tsg_exc;\n#define TSG_NP %d\n#define TSG_NO_SCALE 1\n' % npnt + enumt + '#line 1 "/verif/contracts/updatemap.c"\n' + cfu.text(("text",)) + wt + cfu.text(("harness",)),
+                       "h_buildUpdateMap", unwind=2 * npnt + 3, timeout=300, backends=[[], ["--sat-solver", "cadical"]],
+                       functions=["%s:%d %s" % (f["file"], f["line"], f["name"]) for f in winfo["functions"]], info=winfo, replay=mk_replay(prop, "#include <cmath>\n" + REPLAY_F4),
+                       bounded="points <= %d, outputs <= 2, dimensions <= 2 (full unwinding with unwinding assertions)" % npnt,
+                       assumed=["R13: the criterion |s|/norm > tolerance is (the negation of) an uninterpreted deterministic predicate of its operands", "getNormalization returns arbitrary values (stub)"],
+                       label="GridWavelet::buildUpdateMap classic criterion: which coefficient and norm meet (F4)"))
+    if prop == "C08":
+        t2 = [t for k, a, t in cf.sections if k == "text2"][0]
+        for fam in ("Global", "Sequence"):
+            Rs = X.Rules()
+            st, sinfo = limits.emit_surplus_refinement_sets(Rs, fam)
+            out.append(Job("limits.surplus_sets." + fam, '#include "tsg_shim.h"\nint tsg_exc;\n#define SURPLUS setSurplusRefinement_%s\n' % fam + ctext + t2 + st + cf.text(("harness",), ["h_surplus_sets"]), "h_surplus_sets", timeout=120,
+                           functions=["%s:%d %s" % (f["file"], f["line"], f["name"]) for f in sinfo["functions"]], info=sinfo, replay=mk_replay(prop, REPLAY_STALE),
+                           assumed=["clearRefinement empties needed and the pending tensors; proposeUpdatedTensors / set difference may produce any needed set", "the flagging loops between the two blocks write locals only"],
+                           label="Grid%s::setSurplusRefinement: no admissible child => zero needed points (no stale refinement)" % fam))
     if prop == "C08":
         lc = cf.loops()["growloop"][0]
         gtext = [t for k, a, t in cf.sections if k == "text"][2]
